@@ -391,7 +391,7 @@ def cases(tier: str, seed: int) -> List[Dict[str, Any]]:
     for k in range(npj):
         out.append({'kind': 'proj', 'seed': seed, 'k': k, 'n': 2})
     for name in DIRECTED:
-        out.append({'kind': 'directed', 'name': name, 'seed': seed})
+        out.append({'kind': 'directed', 'name': name, 'seed': seed, 'cpu_s': 240})
     return out
 
 
@@ -453,6 +453,12 @@ def _directed() -> Dict[str, Dict[str, Any]]:
     add('module-reexported-while-in-progress', {'pkg/__init__.py': '', 'pkg/a.py': 'from pkg import b\nclass X: pass\n', 'pkg/b.py': 'from pkg import a\nfrom . import c as renamed\n__all__ = ["a", "renamed"]\n', 'pkg/c.py': 'from . import b\nclass InC: pass\n', 'pkg/good.py': GOOD})
     add('regex-odd', {'pkg/__init__.py': '', 'pkg/a.py': 'import re\nR = re.compile("a{99999999999999}")\nS = re.compile("(?P<n>x){4294967296}")\nT = re.compile("(" * 150 + ")" * 150)\nU = re.compile(b"\\xff{2,1}")\nV = re.compile("\\\\" )\nW = re.compile("[" )\nX = re.compile("(?P<a>x)(?P<a>y)")\nY = re.compile("\\N{NO SUCH NAME}")\nZ = re.compile("x", 10**30)\ndef f(p=re.compile("a{99999999999999}"), q=re.compile(*args), r=re.compile()): pass\n', 'pkg/good.py': GOOD})
     add('doc-assignment-odd', {'pkg/__init__.py': '', 'pkg/a.py': 'class X:\n    pass\nX.__doc__ = "doc \\ud800 end"\ndef f(): pass\nf.__doc__ = "\\udfff"\nf.__doc__ = 1\nX.meth.__doc__ = "x"\nnosuch.__doc__ = "y"\nX.__doc__ += "more"\n__doc__ = "module \\ud800"\n', 'pkg/good.py': GOOD})
+    add('directory-named-like-a-module', {'pkg/__init__.py': '', 'pkg/settings.py/README.txt': 'templates live here', 'pkg/settings.py/base.html': '<html/>', 'pkg/conf.py/__init__.txt': 'x',
+                                           'pkg/real.py': 'x = 1\n', 'pkg/sub/__init__.py': '', 'pkg/sub/data.py/x.dat': 'x', 'pkg/good.py': GOOD})
+    long_target = 'twisted.internet.interfaces.IReactorTime.callLater.and.some.more.dotted.parts.to.make.it.long'
+    add('link-targets-odd', {'pkg/__init__.py': '', 'pkg/a.py': 'def f():\n    """See L{' + long_target + '\'s} and L{' + long_target + ' } and L{' + 'a.' * 40 + '!} and L{text <' + long_target + '$>}.\n\n'
+                                                                 '    U{' + 'x' * 60 + ' <' + 'http://e.x/' + 'a/' * 40 + ' >} L{' + 'a_' * 50 + '-} C{' + 'w ' * 200 + '} L{' + '.' * 80 + '} L{' + long_target + '..}\n    """\n'
+                                         'def g():\n    """`' + long_target + '\'s` and :py:obj:`' + long_target + '\'s` and `' + 'a.' * 60 + '!`_\n    """\n', 'pkg/good.py': GOOD})
     add('same-path-twice', {'pkg/__init__.py': '', 'pkg/good.py': GOOD}, roots=['pkg', 'pkg'])
     add('several-roots', {'pkg/__init__.py': '', 'pkg/good.py': GOOD, 'other/__init__.py': 'from pkg.good import Good\n', 'single.py': 'import pkg\nclass S(pkg.good.Good): pass\n'}, roots=['pkg', 'other', 'single.py'])
     add('roots-same-name', {'a/pkg/__init__.py': 'x = 1\n', 'b/pkg/__init__.py': 'y = 2\n', 'b/pkg/good.py': GOOD}, roots=['a/pkg', 'b/pkg'])
@@ -702,7 +708,7 @@ def run_case(case: Dict[str, Any]) -> core.Res:
     elif kind == 'directed':
         d = DIRECTED[case['name']]
         r = core.rng('C01', 'directed', case['seed'], case['name'])
-        fmts = [FORMATS[(case['seed'] + len(case['name'])) % 5]] + (['restructuredtext'] if 'docstring' in case['name'] or 'strings' in case['name'] else [])
+        fmts = [FORMATS[(case['seed'] + len(case['name'])) % 5]] + (['epytext', 'restructuredtext'] if any(k in case['name'] for k in ('docstring', 'strings', 'link', 'markup', 'doc-')) else [])
         for fmt in dict.fromkeys(fmts):
             _run_generated(res, f"directed:{case['name']}", d['files'], d.get('roots', ['pkg']), fmt, d.get('broken', []), d.get('symlinks'), cli=case['name'].startswith(('broken', 'encodings', 'strings')))
             res.c('directed_trees')
